@@ -29,26 +29,34 @@ theorem never_after_context_death (s : St) (c : Nat) (hc : c ≠ 0) (ops : List 
 /-- …in particular from the moment of the `destroyCtx` operation itself. -/
 theorem never_after_destroy (s : St) (c : Nat) (hc : c ≠ 0) (ops : List Op) :
     c ∉ ranCtxs (run s (.destroyCtx c :: ops)).2 := by
-  simp only [run, step, hc, if_false, List.nil_append]
-  exact never_after_context_death _ c hc ops (by simp)
+  intro hm
+  simp only [run] at hm
+  rw [ranCtxs_append, List.mem_append] at hm
+  rcases hm with hm | hm
+  · rw [step_ranCtxs] at hm; simp [stepCore, ranCtxs] at hm
+  · refine never_after_context_death _ c hc ops ?_ hm
+    rw [step_fst]; simp [stepCore, hc]
+
+/-! The one-step theorems below are stated for `stepCore`, the operation's own effect; `step` only
+appends the end-of-step `released` report (`step_fst`, `step_ranIds`, `step_ranCtxs`). -/
 
 /-- **Attached before finish, context alive ⇒ runs at `finish`, first, with the finished value.** -/
 theorem finish_delivers_to_attached (s : St) (c : Cont) (v : Nat)
     (hrefs : s.refs ≠ 0) (hnf : s.finished = false) (hc : s.cont = some c)
     (halive : s.alive c.ctx = true) :
-    (step s (.finish v)).2.head? =
+    (stepCore s (.finish v)).2.head? =
       some (.ran c.id c.ctx (deliveredOf s.kind v))
-    ∧ (step s (.finish v)).1.cont = none := by
+    ∧ (stepCore s (.finish v)).1.cont = none := by
   have halive' : c.ctx ∉ s.dead := alive_not_dead halive
-  simp [step, hrefs, hnf, hc, halive', invokeCont]
+  simp [stepCore, hrefs, hnf, hc, halive', invokeCont]
 
 /-- **Attached before finish, context dead ⇒ nothing runs and nothing is stored.** -/
 theorem finish_skips_dead_context (s : St) (c : Cont) (v : Nat)
     (hrefs : s.refs ≠ 0) (hnf : s.finished = false) (hc : s.cont = some c)
     (hdead : s.alive c.ctx = false) :
-    (step s (.finish v)).2 = [] ∧ (step s (.finish v)).1.result = s.result := by
+    (stepCore s (.finish v)).2 = [] ∧ (stepCore s (.finish v)).1.result = s.result := by
   have hdead' : c.ctx ∈ s.dead := by simpa [St.alive] using hdead
-  simp [step, hrefs, hnf, hc, hdead']
+  simp [stepCore, hrefs, hnf, hc, hdead']
 
 /-- **A later `then` replaces an earlier one (documented): the replaced continuation never runs.** -/
 theorem replaced_never_runs (kind : Kind) (pre post : List Op) (ctx : Nat) (body : List Inner) :
@@ -65,7 +73,7 @@ theorem replaced_never_runs (kind : Kind) (pre post : List Op) (ctx : Nat) (body
   have hstep : step s (.thenOp ctx body) =
       ({ s with nextId := s.nextId + 1,
                 cont := some { id := s.nextId, ctx := s.effCtx ctx, body := body } }, []) := by
-    simp [step, hrefs, hnf]
+    simp [step, stepCore, hrefs, hnf]
   have hinv1 : Inv (step s (.thenOp ctx body)).1 [.ran c.id 0 none] := by
     rw [hstep]
     refine ⟨by simp, ?_, ?_⟩
@@ -86,23 +94,23 @@ and the stored result is consumed.** -/
 theorem late_then_gets_value (s : St) (r : Nat) (ctx : Nat) (body : List Inner)
     (hrefs : s.refs ≠ 0) (hf : s.finished = true) (hk : s.kind = .value)
     (hr : s.result = some r) :
-    (step s (.thenOp ctx body)).2.head? = some (.ran s.nextId (s.effCtx ctx) (some r))
-    ∧ (step s (.thenOp ctx body)).1.result = none := by
-  simp [step, hrefs, hf, hk, hr]
+    (stepCore s (.thenOp ctx body)).2.head? = some (.ran s.nextId (s.effCtx ctx) (some r))
+    ∧ (stepCore s (.thenOp ctx body)).1.result = none := by
+  simp [stepCore, hrefs, hf, hk, hr]
 
 /-- **Finishing with nobody attached stores the value** (value tasks) so that the first late
 `then` receives exactly it (compose with `late_then_gets_value`). -/
 theorem finish_stores_when_unattached (s : St) (v : Nat)
     (hrefs : s.refs ≠ 0) (hnf : s.finished = false) (hc : s.cont = none) (hk : s.kind = .value) :
-    (step s (.finish v)).1.result = some v ∧ (step s (.finish v)).2 = [] := by
-  simp [step, hrefs, hnf, hc, hk]
+    (stepCore s (.finish v)).1.result = some v ∧ (stepCore s (.finish v)).2 = [] := by
+  simp [stepCore, hrefs, hnf, hc, hk]
 
 /-- **Documented surprise, stated so it cannot drift silently:** on a value task a second late
 `then` (the value was already delivered) is dropped. -/
 theorem late_attach_after_consumed_is_dropped (s : St) (ctx : Nat) (body : List Inner)
     (hrefs : s.refs ≠ 0) (hf : s.finished = true) (hk : s.kind = .value) (hr : s.result = none) :
-    (step s (.thenOp ctx body)).2 = [] := by
-  simp [step, hrefs, hf, hk, hr]
+    (stepCore s (.thenOp ctx body)).2 = [] := by
+  simp [stepCore, hrefs, hf, hk, hr]
 
 /-- **Release.** In every reachable state with no handle left, the shared record holds neither a
 value nor a continuation (`shared_ptr` destruction frees both). -/
@@ -130,6 +138,10 @@ example : (run (init .void) [.thenOp 1 [], .thenOp 2 [.thenI 2], .finish 0]).2
     = [.ran 1 2 none, .ran 2 2 none] := by decide
 example : (run (init .value) [.finish 7, .thenOp 1 [.thenI 1]]).2 = [.ran 0 1 (some 7)] := by decide
 example : (run (init .value) [.finish 3, .copyHandle, .dropHandle, .dropHandle]).2
-    = [.released true false] := by decide
+    = [.released] := by decide
+/-- the owner of the promise deletes itself (all handles) from inside its own continuation: the
+continuation still completes, the record is released at the end of the step -/
+example : (run (init .value) [.copyHandle, .thenOp 1 [.dropAll, .thenI 1], .finish 5]).2
+    = [.ran 0 1 (some 5), .released] := by decide
 
 end Qx.C13
